@@ -148,6 +148,14 @@ fn other_request(server: &mut Server, i: u32, mid: &mut u16) {
     let _ = server.exchange(&r.bytes(), 1000 + i % 7, &mut app);
 }
 
+/// a request on a key that is easily confused with one of the observed keys (same endpoint and a
+/// path that joins / splits / pads / re-cases to the same text, the same path from another endpoint
+/// or with another method); it leaves every kind of state there
+fn neighbour_request(server: &mut Server, i: u32, observed: &[(u32, Vec<String>, u8)]) {
+    let (ep, path, code) = &observed[i as usize % observed.len()];
+    crate::blocktransfer::noise_request(server, 3 * (i / observed.len() as u32 + 1), *ep, path, *code);
+}
+
 fn scenario_retention(rep: &mut Report, r: &mut Rng, clock: &Clock, d: Duration, n_other: u32) {
     rep.eval();
     let witness = format!("retention: expiry {:?}, {} intervening requests on other keys, virtual_time={}", d, n_other, clock.virt);
@@ -174,6 +182,9 @@ fn scenario_retention(rep: &mut Report, r: &mut Rng, clock: &Clock, d: Duration,
         for i in 0..n_other {
             clock.advance(slice);
             other_request(&mut server, i + round * 10_000, &mut mid);
+            if i % 2 == 1 {
+                neighbour_request(&mut server, i / 2 + round * 500, &[(1, vec!["dl".into()], 1), (1, vec!["ul".into()], 3)]);
+            }
         }
         clock.advance(slice);
         match dl_next(&mut server, &mut dl, &mut mid) {
@@ -252,6 +263,9 @@ fn scenario_expiry(rep: &mut Report, r: &mut Rng, clock: &Clock, d: Duration, wa
         for i in 0..traffic {
             clock.advance(slice);
             other_request(&mut server, i, &mut mid);
+            if i % 2 == 0 {
+                neighbour_request(&mut server, i / 2, &[(2, vec!["dl".into(), "x".into()], 1), (2, vec!["ul".into()], 3)]);
+            }
         }
         clock.advance(wait - slice * traffic);
     }
@@ -518,7 +532,7 @@ fn scenario_reclaim(rep: &mut Report, r: &mut Rng, clock: &Clock, d: Duration, n
     #[cfg(has_block_hook)]
     for k in &keys {
         let probe = CoapRequest::from_packet(Packet::from_bytes(&k.bytes()).unwrap(), CEp::new(100 + k.mid as u32));
-        if server.handler.verif_peek(&probe).is_some() {
+        if crate::panicwatch::guard(|| server.handler.verif_peek(&probe).is_some()).unwrap_or(false) {
             rep.violation("expired-entry-still-visible", "hook still sees the expired entry".into(), witness);
             return;
         }
